@@ -388,6 +388,39 @@ def requests_parts():
                  !old(self).cancel ==> final(fx).log == old(fx).log, // @C11,C08
                '''),
         ]),
+        Impl('impl<Req, Res> InFlightRequest<Req, Res>', fx_type='SFx', qual='InFlightRequest', parts=[
+            Raw('''
+    /// execute() appended no cancellation to the log (the guard was disarmed on every completion path)
+    pub open spec fn no_cancel_since(a: Seq<SEffect>, b: Seq<SEffect>) -> bool {
+        a.len() <= b.len() && forall|i: int| a.len() <= i < b.len() ==> !((#[trigger] b[i]) is CancelMsg)
+    }
+'''),
+            Fn(SRC, r'impl<Req, Res> InFlightRequest<Req, Res>', 'execute', fx=True, tags='C08,C11',
+               rules=[
+                   Rule('R5:serve-where', r'\n\s*where\n\s*Req: RequestName,\n\s*S: Serve<Req = Req, Resp = Res>,', '', 1, where='sig', flags=re.M, why='trait bounds of the handler erased (handler is opaque: serve_model)'),
+                   Rule('R1:span-record', r'^[ \t]*span\.record\("otel\.name", message\.name\(\)\);\n', '', 1, where='body', why='A-tracing: span field'),
+                   Rule('R5:serve-call', r'serve\.serve\(context, message\)\.await', 'serve_model(serve, context, message, Tracked(fx)).await', 1, where='body',
+                        why='async trait fn call replaced by its opaque model (one handler invocation)'),
+               ],
+               abortable=dict(name='execute__body', generics='<S>', fx=True,
+                              params='serve: S, context: context::Context, message: Req, request_id: u64, response_tx: ResponseSender<Response<Res>>',
+                              call_args='serve, context, message, request_id, response_tx, Tracked(fx)', ret='()',
+                              ensures='''
+                                // C08: the handler is invoked exactly once and exactly one response, bearing the request's id, is handed over
+                                final(fx).log == old(fx).log.push(SEffect::Handler).push(SEffect::Respond { id: request_id }), // @C08
+                              ''', tags='C08'),
+               drops_at_end=['response_guard'],
+               requires='''
+                 self.response_guard.cancel && self.response_guard.request_id == self.request.id, // @core
+               ''',
+               ensures='''
+                 // C11/C08: once execute() has run to its end -- whether the handler completed or was aborted by the channel --
+                 // the guard is disarmed: no cancellation is queued for an id the channel has already finished with
+                 Self::no_cancel_since(old(fx).log, final(fx).log), // @C08,C11
+                 // C08: at most one handler invocation and one response, for this request's id
+                 final(fx).log == old(fx).log || final(fx).log == old(fx).log.push(SEffect::Handler).push(SEffect::Respond { id: self.request.id }), // @C08
+               '''),
+        ]),
         Impl('impl<C: Channel> Requests<C>', fx_type='SFx', qual='Requests', parts=[
             RQ_VOCAB,
             F(RQ_IMPL, 'ensure_writeable', tags='C14',
@@ -480,4 +513,4 @@ def unit():
     return Unit('server', prelude=['base.rs', 'time.rs', 'delay_queue.rs', 'server_models.rs', 'transport.rs', 'server_queues.rs', 'cancellations.rs'],
                 parts=server_table.parts() + base_channel_parts() + throttle_parts() + requests_parts(), rules=RULES,
                 fx_fns=server_table.FX_CALLS + [r'(?:inner|channel)\s*\.poll_next\(', r'\.pump_read\('],
-                fx_prims=[r'request_cancellation\.cancel\('], fx_type='SFx')
+                fx_prims=[r'request_cancellation\.cancel\(', r'response_tx\.send\('], fx_type='SFx')
